@@ -21,3 +21,5 @@ import FuraxProofs.Props.ValidClosed
 #print axioms Furax.C03.transpose_is_adjoint_closed_noEnv
 #print axioms Furax.Valid.validTb_iff
 #print axioms Furax.Valid.transpose_is_adjoint_closed
+#print axioms Furax.Valid.Examples.exDense_validTb
+#print axioms Furax.Valid.Examples.exDense_adjoint
